@@ -1,4 +1,5 @@
 import IceProofs.Sys2C01View
+import IceProofs.AgentAuto
 /-!
 # C01, layer 2 — every helper of `AgentCore.step` preserves the per-agent invariant `AInv` (with the
 ghost log extended by the Binding requests it emits) and emits only allowed outputs (`OutOK`).
@@ -408,12 +409,49 @@ theorem validateKeepalive_post {a : Agent} {L : Log} (h : AInv Good Sane SaneR t
     exact Post.seq h1 (Post.of_eq heq2 (keepalive_post h1.1 now))
   · exact h1
 
+/-- the automatic-renomination block: checks and one nominating request, all from listed local to listed remote candidates -/
+theorem autoRenom_post {a : Agent} {L : Log} (h : AInv Good Sane SaneR tag lite (view a) L) (now : Nat) :
+    Post Good Sane SaneR tag lite R L (a.autoRenom now) := by
+  refine IceProofs.Auto.autoRenom_parts (P := fun x => Post Good Sane SaneR tag lite R L x) ?_ a (Post.ret h)
+  exact {
+    mark := fun b o id p hacc hp hw =>
+      Post.congr (r := (b, o)) hacc (view_modPair_nosucc b id _ (nosucc_of_pairById hacc.1 hp (by rw [hw]; decide))
+        (fun q hq => pv_set_state q _ (by decide) hq))
+    ping := fun b o l r hacc hl hr =>
+      Post.seq (r1 := (b, o)) hacc (ping_post hacc.1 now l r (hacc.1.locSane _ (mem_locals_cv hl)) (hacc.1.remSane _ (mem_remotes_cv hr)))
+    time := fun b o hacc => Post.congr (r := (b, o)) hacc rfl
+    count := fun b o hacc => Post.congr (r := (b, o)) hacc rfl
+    issue := fun b o l r nom hacc hl hr _ _ _ =>
+      Post.seq (r1 := (b, o)) hacc (sendRequest_post hacc.1 now l r true nom (hacc.1.locSane _ (mem_locals_cv hl))
+        (hacc.1.remSane _ (mem_remotes_cv hr)))
+    log := fun b o _ hacc => Post.congr (r := (b, o)) hacc rfl }
+
+theorem validateKeepaliveAuto_post {a : Agent} {L : Log} (h : AInv Good Sane SaneR tag lite (view a) L) (now : Nat) :
+    Post Good Sane SaneR tag lite R L
+      (match a.validateSelected now with
+       | (a, o, ok) =>
+         if ok = true then match a.keepalive now with
+           | (a, o') => match a.autoRenom now with | (a, o'') => (a, o ++ o' ++ o'')
+         else (a, o)) := by
+  have h1 := validateSelected_post (R := R) h now
+  generalize heq : a.validateSelected now = r at h1
+  obtain ⟨a', o', ok⟩ := r
+  simp only [] at h1 ⊢
+  split
+  · generalize heq2 : a'.keepalive now = r2
+    obtain ⟨a2, o2⟩ := r2
+    have h2 := Post.seq h1 (Post.of_eq heq2 (keepalive_post h1.1 now))
+    generalize heq3 : a2.autoRenom now = r3
+    obtain ⟨a3, o3⟩ := r3
+    exact Post.seq h2 (Post.of_eq heq3 (autoRenom_post h2.1 now))
+  · exact h1
+
 theorem contactCandidates_post {a : Agent} {L : Log} (h : AInv Good Sane SaneR tag lite (view a) L) (now : Nat) :
     Post Good Sane SaneR tag lite R L (a.contactCandidates now) := by
   unfold Agent.contactCandidates
   split
   · split
-    · exact validateKeepalive_post h now
+    · exact validateKeepaliveAuto_post h now
     · split
       · exact nominate_post h now _
       · split
